@@ -14,7 +14,7 @@ import numpy as np
 from harness import common as C
 
 HEADER = """From Coq Require Import List ZArith QArith Bool. Import ListNotations.
-From TLV Require Import Base.Tensor Model.Constraints Corr.C11.
+From TLV Require Import Base.Tensor Model.Constraints Model.ConstraintsStop Corr.C11.
 Close Scope Q_scope. Close Scope Z_scope. Open Scope nat_scope."""
 
 KINDS = ["non_negative", "l1_reg", "l2_reg", "l2_square_reg", "unimodality", "normalize", "simplex",
@@ -337,7 +337,7 @@ def select_calls(tier):
 
 
 # ----------------------------------------------------------------------------- (g) static tie: ast extraction (corr:C11-static)
-HEADER_STATIC = HEADER.replace("Model.Constraints Corr.C11", "Model.Constraints Model.ConstraintsOps Corr.C11") + "\nDefinition failing := failing_static."
+HEADER_STATIC = HEADER + "\nFrom TLV Require Import Model.ConstraintsOps.\nDefinition failing := failing_static."
 PYFUN = {"soft_thresholding": "FSoftThresholding", "l2_prox": "FL2Prox", "l2_square_prox": "FL2SquareProx", "unimodality_prox": "FUnimodalityProx",
          "simplex_prox": "FSimplexProx", "normalized_sparsity_prox": "FNormalizedSparsityProx", "soft_sparsity_prox": "FSoftSparsityProx",
          "smoothness_prox": "FSmoothnessProx", "monotonicity_prox": "FMonotonicityProx", "hard_thresholding": "FHardThresholding"}
@@ -620,6 +620,8 @@ def make_data(cfg):
         if dk == "replicated_int":
             S = np.round(2 * S) + (S > 0)
         X = np.repeat(S, cfg["shape"][m], axis=m)
+    elif dk == "zeros":
+        X = np.zeros(cfg["shape"])
     elif dk == "const":
         X = np.full(cfg["shape"], float(rs.randint(1, 4)))
     elif dk == "signs":
@@ -658,7 +660,7 @@ class Recorder:
                 c, p = PX.validate_constraints(**kw)
             except Exception as e:  # noqa
                 c, p = "?", repr(e)
-            calls.append((kw.get("order", 0), c, p, np.array(out, copy=True)))
+            calls.append((kw.get("order", 0), c, p, np.array(out, copy=True), inp))
             if c in HARD and len(OP_CALLS) < 60000:
                 OP_CALLS.append((c, p, inp, np.array(out, dtype=float, copy=True)))
             return out
@@ -764,6 +766,21 @@ def n_init_of(cfg):
     return cfg.get("n_init", n) if cfg["init"] in USER_RANDOM_INITS else n
 
 
+KNOWN_CRITERIA = {"abs_rec_error": "CrAbsRecError", "rec_error": "CrRecError"}
+
+
+def stop_lits(cfg):
+    """(tol, criterion, cerr_small) of Corr.C11.model_trace_c; cerr_small (`constraint_error < tol_outer`) is decidable for the tolerances
+    the cvg stream uses: never for 1e-300, always for 1e300 (a NaN / inf constraint error only occurs in runs that are skipped)"""
+    tol = cfg.get("tol_outer", 1e-8)
+    return bool(tol), KNOWN_CRITERIA.get(cfg.get("cvg") or "abs_rec_error", "CrUnknown"), bool(tol) and tol >= 1e100
+
+
+def unknown_criterion_reached(cfg):
+    tol, crit, cerr = stop_lits(cfg)
+    return crit == "CrUnknown" and tol and not cerr and cfg["n_outer"] >= 2
+
+
 def corner_raise(cfg):
     """raises of constrained_parafac that are not validation errors and that the model mirrors (C11_no_mode_updated_raises,
     C11_wrong_factor_count_raises, err_defined, inner budget 0): the request is valid but the run must raise"""
@@ -775,6 +792,8 @@ def corner_raise(cfg):
         return True                      # fixed_modes = [0, .., n-1, n-1]: nothing updated, `mttkrp` unbound
     if cfg["n_inner"] == 0:
         return True                      # x_split unbound
+    if unknown_criterion_reached(cfg):
+        return True                      # TypeError("Unknown convergence criterion") at the second sweep (C11_unknown_criterion_raises)
     if n_init_of(cfg) != n:
         return True                      # shapes not aligned
     return (n - 1) not in upd and not err_ok(cfg)
@@ -784,6 +803,36 @@ def degenerate_message(msg):
     """a raised run that is outside the property: singular Gram matrix / non-converging SVD / the harness' per-case timeout"""
     msg = str(msg)
     return "LinAlgError" in msg or "SVD did not converge" in msg or msg == "timeout"
+
+
+ZERO_DIV_KINDS = ("normalize", "normalized_sparsity")
+
+
+def zero_kept_part(kind, p, a):
+    """the operator of `kind` divides by 0 on the finite input a: max |a| = 0, resp. the part kept by hard thresholding is zero"""
+    a = np.asarray(a, float)
+    if not np.all(np.isfinite(a)):
+        return False
+    if kind == "normalize":
+        return not np.any(a != 0)
+    if kind == "normalized_sparsity":
+        try:
+            return float(p) < 1 or not np.any(a != 0)
+        except (TypeError, ValueError):
+            return False
+    return False
+
+
+def nan_origin(calls):
+    """(mode, kind, parameter) of the FIRST recorded operator call with a non-finite output, if that call is a max-normalisation /
+    normalised sparsity of a finite input whose kept part is zero (0/0: known finding C11_zero_operator_input_refuted); None otherwise"""
+    for c in calls or []:
+        order, kind, p, out = c[0], c[1], c[2], c[3]
+        if not np.all(np.isfinite(np.asarray(out, float))):
+            if kind in ZERO_DIV_KINDS and len(c) > 4 and zero_kept_part(kind, p, c[4]):
+                return order, kind, p
+            return None
+    return None
 
 
 def run_predicates(cfg, res):
@@ -809,6 +858,13 @@ def run_predicates(cfg, res):
         fails.append(("C11_valid_request_returns", f"valid request raised: {res['message']}"))
         return fails, 0
     nchk = 0
+    if any(not np.all(np.isfinite(np.asarray(F, float))) for F in res["factors"]):
+        org = nan_origin(res.get("calls"))
+        if org is not None:
+            m0, k0, p0 = org
+            fails.append(("C11_feasible_" + k0, f"mode {m0} ({k0}={p0!r}): the operator divided 0 by 0 (its input has a zero kept part) and the "
+                                                 f"decomposition returned non-finite factors: not in the constraint set"))
+            return fails, 1
     if len(res["factors"]) != n_init_of(cfg):
         fails.append(("C11_skeleton", f"{len(res['factors'])} factors returned, {n_init_of(cfg)} initial factors"))
         return fails, 0
@@ -842,7 +898,7 @@ def prov_lit(cfg, res):
         F = res["factors"][m]
         cm = [c for c in res["calls"] if c[0] == m]
         if cm:
-            _, c, p, o = cm[-1]
+            _, c, p, o = cm[-1][:4]
             if o.shape == F.shape and np.array_equal(o, F, equal_nan=True):
                 if c is None:
                     out.append("PvRaw")
@@ -939,6 +995,8 @@ def structured_matrix(rs, rows, cols, how, scale=1.0):
         M = np.full((rows, cols), float(rs.choice([-2.0, 1.0, 3.0])))
     elif how == "int":
         M = np.round(1.5 * rs.randn(rows, cols))
+    elif how == "zeros":
+        M = np.zeros((rows, cols))
     elif how == "zeros_and_ties":
         M = rs.choice([0.0, 0.0, 1.0, -1.0, 2.0], size=(rows, cols))
     else:
@@ -1003,7 +1061,10 @@ def run_prox(cfg):
         want = "PvRaw" if e is None else tag_lit(*e)
         if lit != want:
             fails.append(("C11_dispatch", f"proximal_operator(order={order}): the output is {lit} (identified by value), the request asks for {want}"))
-        if e is not None and e[0] in HARD:
+        if e is not None and e[0] in ZERO_DIV_KINDS and not np.all(np.isfinite(np.asarray(out, float))) and zero_kept_part(e[0], e[1], T):
+            fails.append(("C11_feasible_" + e[0], f"proximal_operator(order={order}, {e[0]}={e[1]!r}) divided 0 by 0 on an input with a zero kept part "
+                                                   f"and returned non-finite values: not in the constraint set"))
+        elif e is not None and e[0] in HARD:
             msg = feasible(e[0], e[1], out)
             if msg and msg != "degenerate":
                 fails.append(("C11_feasible_" + e[0], f"proximal_operator(order={order}, {e[0]}={e[1]!r}) on a {cfg.get('input', 'generic')} matrix: {msg}"))
@@ -1233,6 +1294,49 @@ def gen_run_cfgs(tier, rng):
             if rng.random() < 0.4:
                 cfg["fixed"] = sorted(rng.sample(range(n), rng.randint(1, 2)))
             yield cfg, "user_weights"
+    # the outer stopping rule as written (Model/ConstraintsStop.v): documented and unknown criteria x tol_outer falsy / tiny (the constraint
+    # error never passes) / huge (it always does) x outer budgets 0..3; an unknown criterion raises TypeError exactly when reached
+    for crit in ("abs_rec_error", "rec_error", "bogus", "bogus"):
+        for tol in (0, 1e-300, 1e300):
+            for n_outer in ((0, 1, 2, 3) if crit == "bogus" else (rng.choice([1, 2, 3]),)):
+                for _ in range(mult):
+                    cfg = base()
+                    n = len(cfg["shape"])
+                    # the constraint error must not be exactly 0 (it is when every updated mode's operator acts as the identity, e.g. no
+                    # updated mode is constrained): a kind that rescales / shifts a generic iterate, on the last mode (always updated)
+                    k = rng.choice(["normalize", "simplex", "soft_sparsity"])
+                    S = tuple(sorted(set(rng.sample(range(n), rng.randint(1, n))) | {n - 1}))
+                    cfg.update(n_outer=n_outer, n_inner=rng.choice([1, 2]), init=rng.choice(["svd", "random", "user"]), data="signed", tol_outer=tol, cvg=crit,
+                               cvg_modelled=True, spec=spec_to_json({k: form_spec(k, rng.choice(["list", "dict"]), S, n, rng.choice(RUN_PARAMS[k]))}))
+                    if rng.random() < 0.3:
+                        cfg["fixed"] = sorted(rng.sample(range(n - 1), 1))
+                    yield cfg, "cvg"
+    # simplex / l1 ball with a parameter <= 0 (known finding C11_nonpositive_simplex_parameter_refuted): 0 through a dict (which registers
+    # falsy values), negative values in any form
+    for k in ("simplex", "soft_sparsity"):
+        for (form, p_) in (("dict", 0), ("dict", 0.0), ("scalar", -1.0), ("list", -0.5)):
+            for _ in range(mult):
+                cfg = base(order=3)
+                m = rng.randrange(3)
+                cfg.update(init=rng.choice(["svd", "random"]), n_outer=0, n_inner=1, fixed=[], rank=rng.choice([1, 2, 3]),
+                           spec=spec_to_json({k: (p_ if form == "scalar" else form_spec(k, form, (m,), 3, p_))}))
+                yield cfg, "nonpositive_parameter"
+    # 0/0 of max-normalisation / normalised sparsity (known finding, C11_zero_operator_input_refuted): the zero tensor with init='svd'
+    # (the singular values scale the first raw factor to zero) and the constraint on mode 0; normalized_sparsity={m: 0} on any data
+    for k in ZERO_DIV_KINDS:
+        for form in ("scalar", "list", "dict"):
+            for n_outer in ((0, 1) if form == "scalar" else (rng.choice([0, 1]),)) * mult:
+                cfg = base(order=3)
+                S = (0, 1, 2) if form == "scalar" else tuple(sorted({0} | set(rng.sample(range(3), rng.randint(0, 2)))))
+                cfg.update(data="zeros", init="svd", n_outer=n_outer, n_inner=1, fixed=[], rank=rng.choice([1, 2]),
+                           spec=spec_to_json({k: form_spec(k, form, S, 3, RUN_PARAMS[k][0])}))
+                yield cfg, "zero_input"
+    for _ in range(2 * mult):
+        cfg = base(order=3)
+        m = rng.randrange(3)
+        cfg.update(init=rng.choice(["svd", "random"]), n_outer=rng.choice([0, 1]), n_inner=1, fixed=[], via_class=False,
+                   spec=spec_to_json({"normalized_sparsity": {m: 0}}))
+        yield cfg, "zero_input"
     # exact ties in the iterates: data constant along the constrained mode (replicated slices) / one magnitude, structured warm
     # starts (all ones, identical rows, one magnitude) or svd; parameters below the number of tied entries
     for k in HARD:
@@ -1312,6 +1416,12 @@ def gen_small_cfgs(tier, rng):
         order = rng.randrange(n)
         yield dict(kind="admm", n=n, order=order, rank=rng.choice([1, 2]), rows=rng.randint(3, 5), n_iter=0, seed=rng.randrange(1 << 30),
                    zero_dual=True, tol=1e-6, spec=spec_to_json(one_spec(n, order))), "admm_inner0"
+    # the zero matrix through the dispatch: 0/0 for the two normalising kinds (known finding), feasible output for the others
+    for k in HARD:
+        n = rng.choice([1, 3])
+        order = rng.randrange(n)
+        yield dict(kind="prox", n=n, order=order, rank=2, rows=3, seed=rng.randrange(1 << 30), input="zeros",
+                   spec=spec_to_json({k: form_spec(k, rng.choice(["scalar", "dict"]), tuple(range(n)), n, RUN_PARAMS[k][0])})), "prox_zero"
     # exact ties straddling a cutoff / a threshold: every hard kind on structured (tied) inputs, through the dispatch and through admm
     inputs = ["ties", "one_magnitude", "rows", "const", "int", "zeros_and_ties"]
     for k in HARD:
@@ -1409,8 +1519,13 @@ def run(chk):
                 user = cfg["init"] not in ("svd", "random")
                 w_ = res.get("weights")
                 wone = w_ is None or bool(np.all(np.asarray(w_) == 1))
-                cases.append(f"CTrace {idlit(cid)} {n}%nat {specs_lit(spec)} {C.boolc(user)} {n_init_of(cfg) if user else n}%nat {C.boolc(wone)} {C.boolc(err_ok(cfg))} {C.nat_list(cfg['fixed'])} "
-                             f"{cfg['n_outer']}%nat {cfg['n_inner']}%nat {lit}")
+                if cfg.get("cvg_modelled"):
+                    tol_, crit_, cerr_ = stop_lits(cfg)
+                    cases.append(f"CTraceC {idlit(cid)} {n}%nat {specs_lit(spec)} {C.boolc(user)} {n_init_of(cfg) if user else n}%nat {C.boolc(wone)} {C.boolc(err_ok(cfg))} "
+                                 f"{C.nat_list(cfg['fixed'])} {cfg['n_outer']}%nat {cfg['n_inner']}%nat {C.boolc(tol_)} {crit_} {C.boolc(cerr_)} {lit}")
+                else:
+                    cases.append(f"CTrace {idlit(cid)} {n}%nat {specs_lit(spec)} {C.boolc(user)} {n_init_of(cfg) if user else n}%nat {C.boolc(wone)} {C.boolc(err_ok(cfg))} {C.nat_list(cfg['fixed'])} "
+                                 f"{cfg['n_outer']}%nat {cfg['n_inner']}%nat {lit}")
                 meta.append(("trace", cfg, lit))
                 n_trace += 1
 
@@ -1579,7 +1694,50 @@ def clf_alias(f):
     return bool(r) and alias_by_negative_key(*r)
 
 
-CLASSIFIERS = {"negative_dict_key_names_a_mode_another_keyword_addresses": clf_alias}
+def clf_zero_div(f):
+    """the non-finite output comes from a max-normalisation / normalised sparsity whose (finite) input has a zero kept part: re-runs the
+    failing input and looks at the first non-finite operator output"""
+    if f.get("predicate") not in ("C11_feasible_normalize", "C11_feasible_normalized_sparsity"):
+        return False
+    inp = f.get("inputs") or {}
+    if "cfg" in inp:
+        inp = inp["cfg"]
+    try:
+        if inp.get("kind") == "prox":
+            rs = np.random.RandomState(inp["seed"])
+            T = structured_matrix(rs, inp["rows"], inp["rank"], inp.get("input", "generic"), inp.get("scale", 1.0))
+            spec = spec_from_json(inp["spec"])
+            e = (expected_table(inp["n"], spec) or [None] * inp["n"])[inp["order"]]
+            return e is not None and e[0] in ZERO_DIV_KINDS and zero_kept_part(e[0], e[1], T)
+        if "shape" in inp:
+            res = run_cfg(inp, Recorder())
+            return nan_origin(res.get("calls")) is not None
+    except Exception:  # noqa
+        return False
+    return False
+
+
+def clf_nonpositive(f):
+    """the infeasible factor belongs to a simplex / soft_sparsity request whose parameter is <= 0"""
+    pred = f.get("predicate") or ""
+    if pred not in ("C11_feasible_simplex", "C11_feasible_soft_sparsity"):
+        return False
+    kind = pred[len("C11_feasible_"):]
+    r = _finding_request(f)
+    if not r:
+        return False
+    n, spec = r
+    sk = spec.get(kind)
+    ps = list(sk.values()) if isinstance(sk, dict) else [e for e in sk if e is not None] if isinstance(sk, list) else [sk]
+    try:
+        return bool(ps) and all(float(q) <= 0 for q in ps if q is not None)
+    except (TypeError, ValueError):
+        return False
+
+
+CLASSIFIERS = {"negative_dict_key_names_a_mode_another_keyword_addresses": clf_alias,
+               "nonpositive_simplex_parameter": clf_nonpositive,
+               "zero_operator_input_divides_0_by_0": clf_zero_div}
 
 
 def finish_with_local_known(chk, classifiers):
